@@ -236,7 +236,9 @@ def tree_equal(e, ref, toks, why):
     if t == 'int':
         return e.vname == 'Integer' and same_term(e.items[0].v, toks[ref[1]].n) or why.append('integer') and False
     if t == 'flt':
-        return e.vname == 'Float' and (not isinstance(e.items[0].v, float)) and e.items[0].v.eq(toks[ref[1]].f) or why.append('float') and False
+        fv, tv_ = e.items[0].v if e.vname == 'Float' else None, toks[ref[1]].f
+        same = (fv == tv_) if isinstance(fv, float) or isinstance(tv_, float) else (fv is not None and fv.eq(tv_))
+        return (e.vname == 'Float' and same) or why.append('float') and False
     if t == 'cast':
         m = e.items[1] if e.vname == 'Cast' else None
         okm = m is not None and ((isinstance(m, Adt) and m.vname == ref[1]) or (isinstance(m, SymEnum)))
@@ -374,6 +376,15 @@ def main():
         for pre in prefixes(n):
             units.append(('parse', n, pre))
     # heaviest first, so that the pool stays busy
+    # longer conditions: the whole language of the reference grammar of each length, every vector run concretely through the
+    # parser MIR (acceptance + tree equality); this is where precedence interactions of casts, comparisons, and/or show
+    deep_hi = 10 if quick else 12
+    for n in range(L + 1, deep_hi + 1):
+        total = len(gen_expr(n))
+        chunk = 400
+        for a in range(0, total, chunk):
+            units.append(('deep', n, a, min(total, a + chunk)))
+    ck.bounds['long conditions'] = 'every condition the reference grammar accepts with %d..%d tokens (concrete token classes, all of them)' % (L + 1, deep_hi)
     units.sort(key=lambda u: -(u[1] * 100 + (sum(1 for c in (u[2] or ()) if c in heavy) * 10)) if u[0] == 'parse' else -10000)
     ck.run_units(units, run_unit)
     ck.finish('real Pratt parser MIR on symbolic token vectors vs stratified reference grammar; binding powers by z3; '
@@ -478,6 +489,9 @@ def run_unit(ck, unit):
         _, n, first = unit
         parse_unit(ck, prog, n, first)
         return
+    if kind == 'deep':
+        deep_unit(ck, prog, unit[1], unit[2], unit[3])
+        return
     raise ValueError(unit)
 
 
@@ -490,6 +504,66 @@ def iter_pos(fr):
                 pos -= ch.src[2] if hasattr(ch, 'src') else 1
             return pos
     return None
+
+
+class ConcTok:
+    """a token with a concrete class and distinct concrete payloads"""
+
+    def __init__(self, prog, i, cls):
+        k, sub = cls
+        self.i = i
+        self.name = ('x%d' % i).encode()
+        self.n = (100 + i) if sub != 'neg' else -(100 + i)
+        self.f = 0.5 + i
+        self.sub = {}
+        tv = TK.TOKEN_VARIANTS
+        if k in TK.SUB:
+            en, vs = TK.SUB[k]
+            self.sub[k] = vs.index(sub)
+            payload = [Adt(en, vs.index(sub), sub, [])]
+        elif k == 'Identifier':
+            payload = [StrV(self.name)]
+        elif k == 'Integer':
+            payload = [mk_int(self.n, 'i64')]
+        else:
+            payload = [FP(self.f)]
+        self.value = Adt('tokeniser::Token', tv.index(k), k, payload)
+
+
+def deep_unit(ck, prog, n, a, b):
+    lang = sorted(gen_expr(n))[a:b]
+    uni = engine.Universe()
+    ex = ck.new_engine(prog, uni=uni, summarise=())
+    bad = []
+    for cv in lang:
+        toks = [ConcTok(prog, i, c) for i, c in enumerate(cv)]
+        res = ex.explore('parse', [Ref(Cont([VecV([t.value for t in toks])]), 0)])
+        ref = ref_parse(cv)
+        why = []
+        if len(res) != 1 or res[0].kind != 'return' or res[0].value.vname != 'Ok':
+            bad.append((cv, 'the parser rejects it (%s)' % (res[0].value if res and res[0].kind == 'return' else (res[0].panic if res else None))))
+            continue
+        if not tree_equal(res[0].value.items[0], ref, toks, why) or not operands_ok(res[0].value.items[0], why):
+            bad.append((cv, 'tree differs: %s' % why))
+    ck.extra['long_conditions_checked'] = ck.extra.get('long_conditions_checked', 0) + len(lang)
+    ck.obligations += 1
+    if not bad:
+        ck.discharged += 1
+    else:
+        br = ck.bridge()
+        cv, what = bad[0]
+        cond = render_condition(cv, None, None)
+        nat = None
+        if cond:
+            names = ['x%d' % i for i in range(n) if cv[i][0] == 'Identifier']
+            y = 'detection:\n' + ''.join('  %s:\n    f%s: a\n' % (x, x[1:]) for x in names) + '  condition: %s\ntrue_positives: []\ntrue_negatives: []\n' % cond
+            nat = br.call(cmd='load', yaml=y, opts=None)
+            nat = {'ok': nat.get('ok'), 'display': nat.get('display'), 'err': nat.get('err')}
+        p = ck.write_replay(safe('deep_%d_%s' % (n, '_'.join((c[1] or c[0])[:3] for c in cv))),
+                            {'classes': cv, 'condition': cond, 'what': what, 'reference_tree': str(ref_parse(cv)), 'native_load': nat})
+        ck.violations.append((p, 'condition %r (%d tokens): %s; native parse: %s' % (cond, n, what, nat)))
+    if len(ck.samples) < 12:
+        ck.samples.append({'vectors': 'reference language, length %d [%d:%d]' % (n, a, b), 'checked': len(lang)})
 
 
 def conditions_unit(ck, prog, n):
